@@ -80,9 +80,27 @@ fn run_pair<T: PairT>(rng: &mut Xoshiro256PlusPlus, n: usize, seed: u64, rep: &m
                 a.merge(&c);
                 twin.merge(&c);
             } else {
-                let x = rng.random::<f64>() * 5.0 - 2.0;
+                let mut x = rng.random::<f64>() * 5.0 - 2.0;
                 // weights that are not exactly summable; zeros now and then
-                let w = match i % 5 { 0 => 0.1, 1 => 0.2, 2 => 0.0, 3 => rng.random::<f64>() + 0.01, _ => 0.7 };
+                let mut w = match i % 5 { 0 => 0.1, 1 => 0.2, 2 => 0.0, 3 => rng.random::<f64>() + 0.01, _ => 0.7 };
+                if T::NAME == "Covariance" {
+                    // the second coordinate is a value, not a weight: exactly collinear / anti-collinear
+                    // data with non-dyadic coefficients (sum_prod^2 within an ulp of sum_x_2 * sum_y_2), a
+                    // constant coordinate (0/0 states), magnitudes whose products underflow
+                    match seed % 4 {
+                        1 => w = 0.3 * x + 0.7,
+                        2 => w = -1.7 * x + 1.0e3,
+                        3 => {
+                            if i < n / 2 {
+                                w = 0.7;
+                            } else {
+                                x *= 1.0e-90;
+                                w = (w + 0.1) * 1.0e-95;
+                            }
+                        }
+                        _ => {}
+                    }
+                }
                 a.add(x, w);
                 twin.add(x, w);
             }
